@@ -878,3 +878,7 @@ mod tests {
         }
     }
 }
+
+#[cfg(all(test, pendulum_project_ntpd_rs_verif))]
+#[path = "/verif/harness/ntp-proto/hook_time_types.rs"]
+mod verif_hook;
